@@ -358,7 +358,7 @@ impl Value {
           FeelType::List(Box::new(FeelType::Null))
         } else {
           let item_type = values.as_vec()[0].type_of();
-          for item in values.as_vec() {
+          for item in values.as_vec().iter().skip(1) {
             if item.type_of() != item_type {
               return FeelType::List(Box::new(FeelType::Any));
             }
